@@ -134,3 +134,51 @@ def serde_string_guard(facts):
         if not reads:
             out.append(ob("reader.serde-string", key0 + ":reads", fn["pat"], "unrecognised", "no reads through the cursor recognised", fn["qname"]))
     return out
+
+
+def narrow_image_arith(facts):
+    """readers: a 32-bit field taken from the image (read<uint32_t>(is), copy_from_mem(ptr, x)) that is shifted left or multiplied
+    in 32 bits and only then widened to 64 bits loses its high bits for large - valid - images (bloom filters above 2^32 bits);
+    the widening has to happen before the arithmetic.  Values of 8/16 bits promote to int and cannot wrap for the constants
+    used; they are not in scope."""
+    fns = functions_by(facts)
+    out = []
+    n_locals = 0
+    for pat, fn in sorted(fns.items()):
+        if not (fn["name"].startswith(("deserialize", "wrap", "writable_wrap", "internal_deserialize")) or fn["name"] in ("newList", "newSet", "newHll")):
+            continue
+        img = {}
+
+        def dv(n):
+            if n.get("k") == "Decl":
+                for v in n.get("vars", []):
+                    if (v.get("t") or "").replace("const ", "") in ("unsigned int", "int") and v.get("init") is not None:
+                        c = []
+                        walk(v["init"], lambda x: c.append(x) if x.get("k") == "Call" and x.get("cname") in ("read", "read_big_endian") else None)
+                        if c and strip_all(v["init"]).get("k") == "Call":
+                            img[v["d"]] = v["n"]
+            if n.get("k") == "Call" and n.get("cname") in ("copy_from_mem", "memcpy"):
+                for a in n.get("args", []):
+                    a = strip_all(a)
+                    r = strip_all(a["e"]) if a.get("k") == "Un" and a.get("op") == "&" else a
+                    if r.get("k") == "Ref" and r.get("dk") == "local" and (r.get("t") or "").replace("const ", "") in ("unsigned int", "int"):
+                        img[r["d"]] = r["n"]
+        walk(fn["body"], dv)
+        n_locals += len(img)
+        idx = [0]
+
+        def v(x):
+            if x.get("k") == "Cast" and x.get("impl") and x.get("ck") == "IntegralCast" and x.get("sz") == 8:
+                e = x.get("e") or {}
+                while e.get("k") == "Paren":
+                    e = e.get("e") or {}
+                if e.get("k") == "Bin" and e.get("op") in ("<<", "*") and e.get("sz") == 4:
+                    used = []
+                    walk(e, lambda y: used.append(y) if y.get("k") == "Ref" and y.get("d") in img else None)
+                    if used:
+                        key = "%s:%s-widened-after-arith#%d" % (short(fn["patq"]), used[0]["n"], idx[0])
+                        idx[0] += 1
+                        out.append(ob("reader.narrow-arith", key, x["loc"], "violated", "`%s` is computed in 32 bits from the image field `%s` and only then converted to %s: for images whose field exceeds 2^%d the high bits are lost before the widening (restored capacity / size wraps)" % (txt(e), used[0]["n"], x.get("t"), 32 - (int(strip_all(e["r"]).get("v", 0)) if e["op"] == "<<" and "v" in strip_all(e["r"]) else 1)), fn["qname"]))
+        walk(fn["body"], v)
+    out.append(ob("reader.narrow-arith", "all:image-fields-scanned", "", "discharged" if n_locals >= 20 else "unrecognised", "%d 32-bit image fields in readers scanned for 32-bit shift/multiply widened afterwards" % n_locals, ""))
+    return out
